@@ -187,7 +187,7 @@ class ParameterList(object):
         elif key == "model.rel_tol":
             type_str, nonetype_ok, lower, upper = 'float', False, 0.0, 1.0
         elif key == "slow.history_for_slow":
-            type_str, nonetype_ok, lower, upper = 'int', False, 0, None
+            type_str, nonetype_ok, lower, upper = 'int', False, 1, None  # the average decrease is taken over this many iterations (a divisor)
         elif key == "slow.thresh_for_slow":
             type_str, nonetype_ok, lower, upper = 'float', False, 0, None
         elif key == "slow.max_slow_iters":
